@@ -497,6 +497,21 @@ pub fn pair_fuses(toks: &[Tok], i: usize) -> bool {
     !window_ok(toks, lo, hi, &|k| k == i)
 }
 
+/// Context-sensitive variant of [`gap_needs_separator`]: with gap `i` empty and the two
+/// neighbouring gaps as they actually are (`left_tight` / `right_tight`), is the neighbourhood
+/// [i-2, i+2) read back differently? `1e- 3` keeps its three tokens although `1e-3` does not, so
+/// the gap between `1e` and `-` needs a separator only while the gap after `-` is empty.
+pub fn gap_needs_separator_given(toks: &[Tok], i: usize, left_tight: bool, right_tight: bool) -> bool {
+    if pair_fuses(toks, i) {
+        return true;
+    }
+    let lo = i.saturating_sub(2);
+    let hi = (i + 2).min(toks.len());
+    let l = left_tight && i >= 2;
+    let r = right_tight && i + 1 < toks.len();
+    !window_ok(toks, lo, hi, &|k| k == i || (l && k + 1 == i) || (r && k == i + 1))
+}
+
 /// Does the gap before token `i` (1 <= i < len) need a non-empty separator?
 /// Decided by re-tokenising the neighbourhood [i-2, i+2) with gap i tight and every combination of
 /// the two neighbouring gaps tight (only if they do not fuse on their own) or spaced, so that the
